@@ -163,6 +163,9 @@ pub fn o04(dir: &str, thorough: bool, seed: u64) {
                 let n = 2 + rng.below(3);
                 let base = if xg.k >= 2 && rng.chance(1, 3) {
                     swapped_duplicates(&mut rng, &eval_spec(&xg, true), xg.k >= 3)
+                } else if xg.k >= 2 && rng.chance(1, 3) {
+                    let three = xg.k >= 3 && rng.chance(1, 2);
+                    renamed_duplicates(&mut rng, &eval_spec(&xg, true), three)
                 } else {
                     closed_tree(&mut rng, &xg, true, 3, 6, None)
                 };
@@ -882,6 +885,67 @@ pub fn o15(dir: &str, thorough: bool, seed: u64) {
                     }
                     out.oracle(per_k.windows(2).all(|w| w[0] == w[1]), "C15", "result depends on the number of spare variable sets", &format!("{name} depth={depth} {f}"));
                 }
+                // every sanitising entry point, on LISTS of 3..5 formulae (plain, extended, trees) and on single formulae:
+                // position by position the sanitised set is the raw set of the same position, sanitised
+                {
+                    let Ok(xg) = Xg::new(name, aeon, depth.max(1)) else { continue };
+                    if xg.num_points() > 9_000 {
+                        continue;
+                    }
+                    let ctx = rand_ctx(&mut rng, &xg, &["p", "q", "d", "e"]);
+                    let n = 3 + rng.below(3);
+                    let ext: Vec<String> = (0..n).map(|_| closed_tree(&mut rng, &xg, true, 2, 6, None).to_string()).collect();
+                    let plain: Vec<String> = (0..n).map(|_| closed_tree(&mut rng, &xg, false, 2, 6, None).to_string()).collect();
+                    let fe: Vec<&str> = ext.iter().map(|x| x.as_str()).collect();
+                    let fp: Vec<&str> = plain.iter().map(|x| x.as_str()).collect();
+                    let all = guarded(std::panic::AssertUnwindSafe(|| -> Result<Vec<String>, String> {
+                        let mut bad: Vec<String> = Vec::new();
+                        let san = |r: &GraphColoredVertices| sanitize_colored_vertices(&xg.graph, r);
+                        let raw_e = model_check_multiple_extended_formulae_dirty(fe.clone(), &xg.graph, &ctx)?;
+                        let san_e = model_check_multiple_extended_formulae(fe.clone(), &xg.graph, &ctx)?;
+                        let raw_p = model_check_multiple_formulae_dirty(fp.clone(), &xg.graph)?;
+                        let san_p = model_check_multiple_formulae(fp.clone(), &xg.graph)?;
+                        let trees: Vec<HctlTreeNode> = fp
+                            .iter()
+                            .map(|f| biodivine_hctl_model_checker::preprocessing::parser::parse_and_minimize_hctl_formula(xg.graph.symbolic_context(), f))
+                            .collect::<Result<Vec<_>, String>>()?;
+                        let raw_t = model_check_multiple_trees_dirty(trees.clone(), &xg.graph)?;
+                        let san_t = model_check_multiple_trees(trees.clone(), &xg.graph)?;
+                        if san_e.len() != n || san_p.len() != n || san_t.len() != n {
+                            bad.push(s("a sanitising list entry point returns a list of the wrong length"));
+                        }
+                        for i in 0..n {
+                            if san_e.get(i) != Some(&san(&raw_e[i])) {
+                                bad.push(format!("model_check_multiple_extended_formulae position {i} of {n}"));
+                            }
+                            if san_p.get(i) != Some(&san(&raw_p[i])) {
+                                bad.push(format!("model_check_multiple_formulae position {i} of {n}"));
+                            }
+                            if san_t.get(i) != Some(&san(&raw_t[i])) {
+                                bad.push(format!("model_check_multiple_trees position {i} of {n}"));
+                            }
+                            if model_check_extended_formula(fe[i], &xg.graph, &ctx)? != san(&raw_e[i]) {
+                                bad.push(format!("model_check_extended_formula {i}"));
+                            }
+                            if model_check_formula(fp[i], &xg.graph)? != san(&raw_p[i]) {
+                                bad.push(format!("model_check_formula {i}"));
+                            }
+                            if model_check_tree(trees[i].clone(), &xg.graph)? != san(&raw_t[i]) {
+                                bad.push(format!("model_check_tree {i}"));
+                            }
+                        }
+                        Ok(bad)
+                    }));
+                    match all {
+                        Ok(Ok(bad)) => {
+                            out.count("san_lists");
+                            out.oracle(bad.is_empty(), "C15", "a sanitising entry point does not return the raw set of the same position, sanitised",
+                                &format!("{name} k={} {bad:?} ext={ext:?} plain={plain:?} ctx={:?}", xg.k, ctx.keys().collect::<Vec<_>>()));
+                        }
+                        Ok(Err(_)) => out.count("san_lists_rejected"),
+                        Err(_) => out.oracle(false, "C15", "a sanitising entry point panicked", &format!("{name} ext={ext:?} plain={plain:?}")),
+                    }
+                }
             }
         }
     }
@@ -977,6 +1041,12 @@ pub fn o20(dir: &str, thorough: bool, seed: u64) {
                     // states of the slice
                     let slice: Vec<bool> = (0..xg.n_s).map(|st| wr[0].as_bytes()[st * xg.n_c + c] == b'1').collect();
                     let wxg = Xg { name: s("w"), bn: witness.clone(), graph: wg, k: xg.k, n_v: xg.n_v, n_s: xg.n_s, n_c: 1, params: vec![], vars: xg.vars.clone(), var_names: xg.var_names.clone() };
+                    // the premise `AgreeCol` of the theorem, decided on the instance: the instantiated network has
+                    // exactly the transitions of colour c
+                    out.count("agree_col");
+                    out.oracle(wxg.steps_of_colour(0) == xg.steps_of_colour(c), "C20",
+                        "pick_witness network does not have the transitions of the chosen colour (premise AgreeCol)",
+                        &format!("{} colour={c}", xg.name));
                     let wbits = wxg.san_bits(&wres);
                     let wslice: Vec<bool> = wbits.bytes().map(|b| b == b'1').collect();
                     out.count("colour_slice");
